@@ -8,6 +8,9 @@ use std::collections::VecDeque;
 
 use crate::rng::{DetHasher, Rng};
 
+/// index of an alphabet cell (a letter of the reference model)
+pub type Cell = u16;
+
 pub const RAW_CAP: usize = 30_000;
 
 thread_local! {
@@ -34,7 +37,7 @@ fn spend(n: usize) -> bool {
 }
 pub const MIN_CAP: usize = 2_000;
 /// loop counters above this make a term opaque for R-dfa (R-match still applies)
-pub const LOOP_CAP: u32 = 80;
+pub const LOOP_CAP: u32 = 400;
 
 /// Complete DFA over letters 0..k. Initial state is 0. Canonical form: minimal, all states
 /// reachable, states numbered in BFS order (letters ascending). Two canonical DFAs over the
@@ -56,7 +59,7 @@ impl Dfa {
         self.trans[q as usize * self.k + c]
     }
 
-    pub fn run(&self, w: &[u8]) -> u32 {
+    pub fn run(&self, w: &[Cell]) -> u32 {
         let mut q = 0u32;
         for &c in w {
             q = self.step(q, c as usize);
@@ -64,14 +67,14 @@ impl Dfa {
         q
     }
 
-    pub fn run_from(&self, mut q: u32, w: &[u8]) -> u32 {
+    pub fn run_from(&self, mut q: u32, w: &[Cell]) -> u32 {
         for &c in w {
             q = self.step(q, c as usize);
         }
         q
     }
 
-    pub fn accepts(&self, w: &[u8]) -> bool {
+    pub fn accepts(&self, w: &[Cell]) -> bool {
         self.fin[self.run(w) as usize]
     }
 
@@ -179,7 +182,7 @@ impl Dfa {
                 let id = *ids.entry(key).or_insert(next);
                 if id == next {
                     order.push((a2, b2));
-                    if order.len() > RAW_CAP {
+                    if order.len() > raw_cap(k) {
                         return None;
                     }
                 }
@@ -236,7 +239,7 @@ impl Dfa {
                     None => {
                         ids.insert(key.clone(), next);
                         order.push(key);
-                        if order.len() > RAW_CAP {
+                        if order.len() > raw_cap(k) {
                             return None;
                         }
                         next
@@ -281,7 +284,7 @@ impl Dfa {
                     None => {
                         ids.insert(s2.clone(), next);
                         order.push(s2);
-                        if order.len() > RAW_CAP {
+                        if order.len() > raw_cap(k) {
                             return None;
                         }
                         next
@@ -377,17 +380,17 @@ impl Dfa {
     // ---- decision procedures with witnesses -------------------------------------------
 
     /// shortest accepted string
-    pub fn shortest_accepted(&self) -> Option<Vec<u8>> {
+    pub fn shortest_accepted(&self) -> Option<Vec<Cell>> {
         self.shortest_to(|q| self.fin[q as usize])
     }
 
-    pub fn shortest_rejected(&self) -> Option<Vec<u8>> {
+    pub fn shortest_rejected(&self) -> Option<Vec<Cell>> {
         self.shortest_to(|q| !self.fin[q as usize])
     }
 
-    fn shortest_to(&self, goal: impl Fn(u32) -> bool) -> Option<Vec<u8>> {
+    fn shortest_to(&self, goal: impl Fn(u32) -> bool) -> Option<Vec<Cell>> {
         let n = self.n();
-        let mut pred: Vec<Option<(u32, u8)>> = vec![None; n];
+        let mut pred: Vec<Option<(u32, Cell)>> = vec![None; n];
         let mut seen = vec![false; n];
         let mut queue = VecDeque::new();
         seen[0] = true;
@@ -407,7 +410,7 @@ impl Dfa {
                 let r = self.step(q, c);
                 if !seen[r as usize] {
                     seen[r as usize] = true;
-                    pred[r as usize] = Some((q, c as u8));
+                    pred[r as usize] = Some((q, c as Cell));
                     queue.push_back(r);
                 }
             }
@@ -416,19 +419,19 @@ impl Dfa {
     }
 
     /// shortest string on which the two languages differ (None: equal)
-    pub fn shortest_diff(&self, other: &Dfa) -> Option<Vec<u8>> {
+    pub fn shortest_diff(&self, other: &Dfa) -> Option<Vec<Cell>> {
         self.product_search(other, |a, b| a != b)
     }
 
     /// shortest string in self but not in other (None: self is a subset of other)
-    pub fn shortest_not_subset(&self, other: &Dfa) -> Option<Vec<u8>> {
+    pub fn shortest_not_subset(&self, other: &Dfa) -> Option<Vec<Cell>> {
         self.product_search(other, |a, b| a && !b)
     }
 
-    fn product_search(&self, other: &Dfa, bad: fn(bool, bool) -> bool) -> Option<Vec<u8>> {
+    fn product_search(&self, other: &Dfa, bad: fn(bool, bool) -> bool) -> Option<Vec<Cell>> {
         assert_eq!(self.k, other.k);
         let nb = other.n() as u64;
-        let mut pred: HashMap<u64, (u64, u8)> = HashMap::new();
+        let mut pred: HashMap<u64, (u64, Cell)> = HashMap::new();
         let mut queue = VecDeque::new();
         pred.insert(0, (u64::MAX, 0));
         queue.push_back((0u32, 0u32));
@@ -453,7 +456,7 @@ impl Dfa {
                 let b2 = other.step(b, c);
                 let k2 = a2 as u64 * nb + b2 as u64;
                 if let std::collections::hash_map::Entry::Vacant(e) = pred.entry(k2) {
-                    e.insert((key, c as u8));
+                    e.insert((key, c as Cell));
                     queue.push_back((a2, b2));
                 }
             }
@@ -495,12 +498,12 @@ impl Dfa {
 
     /// A string of bounded length steered towards (accept = true) or away from the language:
     /// a random walk that stays where the goal is still reachable, then the shortest way to it.
-    pub fn steered(&self, rng: &mut Rng, accept: bool, max_len: usize) -> Option<Vec<u8>> {
+    pub fn steered(&self, rng: &mut Rng, accept: bool, max_len: usize) -> Option<Vec<Cell>> {
         let dist = self.dist_to(|q| self.fin[q as usize] == accept);
         if dist[0] == u32::MAX {
             return None;
         }
-        let mut w: Vec<u8> = Vec::new();
+        let mut w: Vec<Cell> = Vec::new();
         let mut q = 0u32;
         let wander = rng.below(max_len as u64 + 1) as usize;
         for _ in 0..wander {
@@ -520,7 +523,7 @@ impl Dfa {
                 break;
             }
             let c = cands[rng.below(cands.len() as u64) as usize];
-            w.push(c as u8);
+            w.push(c as Cell);
             q = self.step(q, c);
         }
         // finish along a shortest path
@@ -533,7 +536,7 @@ impl Dfa {
                 }
             }
             let c = cands[rng.below(cands.len() as u64) as usize];
-            w.push(c as u8);
+            w.push(c as Cell);
             q = self.step(q, c);
         }
         Some(w)
@@ -546,6 +549,11 @@ impl Dfa {
             .filter(|&&d| d != u32::MAX)
             .count()
     }
+}
+
+/// cap on unminimised states: at most RAW_CAP, and at most ~600 000 transitions
+pub fn raw_cap(k: usize) -> usize {
+    RAW_CAP.min(600_000 / k.max(1)).max(64)
 }
 
 fn capped(d: Dfa) -> Option<Dfa> {
@@ -601,6 +609,9 @@ pub fn canon(d: Dfa) -> Dfa {
         }
     };
     loop {
+        // minimisation is charged to the same work budget (it keeps going when the budget is
+        // used up - the result must stay canonical - but later constructions then give up)
+        let _ = spend(n * k / 4 + 1);
         let mut sig_ids: HashMap<Vec<u32>, u32> = HashMap::new();
         let mut new_class = vec![0u32; n];
         let mut sig = Vec::with_capacity(k + 1);
